@@ -1,0 +1,10 @@
+//go:build verif
+
+package cmd
+
+// Hooks for the verification harness in /verif (build tag `verif`): read-only access to
+// unexported decision helpers of the CLI layer. Add-only; not compiled into normal builds.
+
+// VerifIsSmellHaveSize exposes isSmellHaveSize (cmd/bs.go), the predicate that selects which
+// bad-smell kinds `bs --sort type` orders by size.
+func VerifIsSmellHaveSize(key string) bool { return isSmellHaveSize(key) }
